@@ -35,7 +35,8 @@ def run(ctx):
                     for kl in order:
                         key = bytes(kl)
                         try:
-                            kb = tr31.wrap(kbpk, h, key, mask)
+                            # every other mask as an int-subclass instance (IntEnum members, bools and user subclasses are ints)
+                            kb = tr31.wrap(kbpk, h, key, fw._Int(mask) if (mask is not None and kl % 2) else mask)
                         except Exception as e:  # noqa: BLE001
                             viol.append({"what": "wrap failed", "input": {"v": v, "alg": alg, "mask": mask, "key_len": kl},
                                          "expected": "OK", "observed": repr(e)[:100]})
